@@ -68,14 +68,15 @@ Definition ex_state : state := final init ex_history.
 Lemma legal_dec_ok s i :
   bool_decide (i_fresh i ∉ cookies_in_use s) = true ->
   match i_ev i with NewConnection c _ => conns s !! c = None | _ => True end ->
-  i_bserial i = None ->
+  (N.of_nat (size (calls s)) <? 4294967296) && bool_decide (i_bserial i = None) = true ->
   match i_ev i with
   | Message _ (CreateChannel _ (CReceiver cap)) | Message _ (ClaimChannelEnd _ _ (CReceiver cap))
   | Message _ (AddChannelCapacity _ cap) => cap <= u32_max
   | _ => True
   end -> legal s i.
 Proof.
-  intros H1 H2 H3 H4. unfold legal. rewrite H3. apply bool_decide_eq_true in H1. auto.
+  intros H1 H2 H3 H4. unfold legal. apply andb_true_iff in H3 as [H3 H5].
+  apply bool_decide_eq_true in H5. rewrite H5. apply bool_decide_eq_true in H1. apply N.ltb_lt in H3. auto.
 Qed.
 
 Fixpoint reach_list (s : state) (h : list input) : Prop :=
@@ -102,7 +103,7 @@ Proof.
   apply reach_list_reachable; [apply reach_init|].
   unfold ex_history.
   repeat (cbn [reach_list]; split;
-    [apply legal_dec_ok; [vm_compute; reflexivity|vm_compute; try reflexivity; exact I|reflexivity|exact I]|];
+    [apply legal_dec_ok; [vm_compute; reflexivity|vm_compute; try reflexivity; exact I|vm_compute; reflexivity|exact I]|];
     match goal with |- match ?x with _ => _ end =>
       let r := eval vm_compute in x in
       change x with r; cbv beta iota end).
